@@ -1851,11 +1851,16 @@ def r61_initialize_order(ctx, sc: SimCtx):
     # running guard dominates clear
     if clears:
         cn = _node_containing(gd, clears[0])
-        ge = GuardEval(prog, SIM, {'self._run_state': 'STARTED'}, sc.enums)
-        blocked = any((ge.ev(c.ast) is not None and ge.ev(c.ast) != br) for (c, br) in gd.guard_branches(cn))
-        ctx.ob('R6.1', 'running-guard-before-clear', blocked, sample=f'eventlist.clear() unreachable while running: {blocked}')
-        if not blocked:
-            ctx.finding('R6.1', 'DEVSSimulator.initialize:running-guard', dci, clears[0], 'the event list can be cleared while the simulator is running', where='DEVSSimulator.initialize')
+        for rs_ in ('STARTED', 'STARTING'):
+            # STARTING: start() was accepted and the worker is being woken -- the run has begun (is_starting_or_running is documented True)
+            ge = GuardEval(prog, SIM, {'self._run_state': rs_}, sc.enums)
+            blocked = any((ge.ev(c.ast) is not None and ge.ev(c.ast) != br) for (c, br) in gd.guard_branches(cn))
+            ctx.ob('R6.1', 'running-guard-before-clear' + ('' if rs_ == 'STARTED' else ':' + rs_), blocked,
+                   sample=f'eventlist.clear() unreachable in run state {rs_}: {blocked}')
+            if not blocked:
+                ctx.finding('R6.1', 'DEVSSimulator.initialize:running-guard' + ('' if rs_ == 'STARTED' else ':' + rs_), dci, clears[0],
+                            'the event list can be cleared while the simulator is running' + ('' if rs_ == 'STARTED' else
+                            ' (run state STARTING: a start command was accepted and its replication is discarded under it)'), where='DEVSSimulator.initialize')
     # base: clock reset dominates construct_model; construct_model on every normal path exactly once
     cm = [c for c in walk_shallow(bfn) if isinstance(c, ast.Call) and isinstance(c.func, ast.Attribute) and c.func.attr == 'construct_model']
     resets = [st for st in walk_shallow(bfn) if isinstance(st, ast.Assign) and any(is_self_attr(t, sc.clock) for t in st.targets)
@@ -2311,3 +2316,145 @@ def start_handshake(ctx, sc, rule):
                         'simulator still reports STARTING; a stop() issued in that window is accepted and announces STOPPING, then the worker overwrites the state with STARTED '
                         'and runs on -- the accepted command neither is refused nor takes effect', where=f'{ci.name}.{f2.name}')
     ctx.floor(rule, 'sites raising the start flag', n, 1)
+
+
+# ------------------------------------------------------------------------------------------------ the replication's time frame
+class _Obj:
+    """an object of a program class as built by its constructor: class name + the values of the constructor parameters"""
+    def __init__(self, cname, env):
+        self.cname, self.env = cname, env
+
+
+class _FrameEval:
+    """Symbolic evaluation of the time accessors of RunControl / Replication over the constructor parameters: values are affine forms
+    over the symbols start_time, warmup_period, run_length (affine.Lin) or objects of program classes (_Obj).  Getters, properties,
+    one-return helper methods and straight-line locals are followed; everything else is `unknown`."""
+
+    def __init__(self, prog):
+        self.prog = prog
+
+    def field(self, obj, f, depth):
+        for c in self.prog.mro(obj.cname):
+            ci = self.prog.classes.get(c)
+            if ci is None or '__init__' not in ci.methods:
+                continue
+            init = ci.methods['__init__']
+            env = dict(obj.env) if c == obj.cname else None
+            if env is None:
+                return None
+            stores = [a for a in walk_shallow(init) if isinstance(a, (ast.Assign, ast.AnnAssign)) and getattr(a, 'value', None) is not None
+                      and any(is_self_attr(t, f) for t in (a.targets if isinstance(a, ast.Assign) else [a.target]))]
+            if len(stores) != 1 or stores[0] not in body_of(init):
+                return None
+            # straight-line locals of the constructor in front of the store
+            loc = dict(env)
+            for st in body_of(init):
+                if st is stores[0]:
+                    break
+                if isinstance(st, (ast.Assign, ast.AnnAssign)) and getattr(st, 'value', None) is not None:
+                    for t in (st.targets if isinstance(st, ast.Assign) else [st.target]):
+                        if isinstance(t, ast.Name):
+                            loc[t.id] = self.ev(st.value, obj, loc, depth + 1)
+            return self.ev(stores[0].value, obj, loc, depth + 1)
+        return None
+
+    def member(self, obj, name, depth, args=()):
+        from .affine import Lin
+        r = self.prog.resolve(obj.cname, name)
+        ci, fn = r if r else (None, None)
+        if fn is None:
+            return self.field(obj, name, depth)
+        body = body_of(fn)
+        params = [a.arg for a in fn.args.args][1:]
+        loc = dict(zip(params, args))
+        for st in body:
+            if isinstance(st, (ast.Assign, ast.AnnAssign)) and getattr(st, 'value', None) is not None:
+                for t in (st.targets if isinstance(st, ast.Assign) else [st.target]):
+                    if isinstance(t, ast.Name):
+                        loc[t.id] = self.ev(st.value, obj, loc, depth + 1)
+                    else:
+                        return None
+            elif isinstance(st, ast.Return) and st.value is not None:
+                return self.ev(st.value, obj, loc, depth + 1)
+            else:
+                return None
+        return None
+
+    def ev(self, e, obj, loc, depth=0):
+        from .affine import Lin
+        if depth > 12:
+            return None
+        if isinstance(e, ast.Constant) and isinstance(e.value, (int, float)) and not isinstance(e.value, bool):
+            from fractions import Fraction
+            return Lin(Fraction(e.value))
+        if isinstance(e, ast.Name):
+            return loc.get(e.id) if e.id != 'self' else obj
+        if isinstance(e, ast.Attribute):
+            o = self.ev(e.value, obj, loc, depth + 1)
+            if isinstance(o, _Obj):
+                r = self.prog.resolve(o.cname, e.attr)
+                if r and r[1] is not None and e.attr not in self.prog.classes[r[0].name].props:
+                    return None                   # a bound method, not a value
+                return self.member(o, e.attr, depth + 1)
+            return None
+        if isinstance(e, ast.Call):
+            if isinstance(e.func, ast.Name) and e.func.id in self.prog.classes and not e.keywords:
+                ci = self.prog.classes[e.func.id]
+                r = self.prog.resolve(e.func.id, '__init__')
+                if not r or r[1] is None or r[0].name != e.func.id:
+                    return None
+                params = [a.arg for a in r[1].args.args][1:]
+                if len(e.args) > len(params):
+                    return None
+                return _Obj(e.func.id, {p: self.ev(a, obj, loc, depth + 1) for p, a in zip(params, e.args)})
+            if isinstance(e.func, ast.Attribute) and not e.keywords:
+                o = self.ev(e.func.value, obj, loc, depth + 1)
+                if isinstance(o, _Obj):
+                    return self.member(o, e.func.attr, depth + 1, [self.ev(a, obj, loc, depth + 1) for a in e.args])
+            return None
+        if isinstance(e, ast.BinOp) and isinstance(e.op, (ast.Add, ast.Sub)):
+            l, r = self.ev(e.left, obj, loc, depth + 1), self.ev(e.right, obj, loc, depth + 1)
+            if isinstance(l, Lin) and isinstance(r, Lin):
+                return l + r if isinstance(e.op, ast.Add) else l - r
+            return None
+        if isinstance(e, ast.UnaryOp) and isinstance(e.op, ast.USub):
+            v = self.ev(e.operand, obj, loc, depth + 1)
+            return v.scale(-1) if isinstance(v, Lin) else None
+        return None
+
+
+def replication_frame(ctx, rule):
+    """The simulator takes its start time, warm-up time and horizon from the replication: each time accessor of RunControl and
+    Replication, evaluated symbolically over the constructor arguments, must be the documented combination of start time, warm-up
+    period and run length (sums and differences are compared as affine forms, so `a` and `(s + a) - s` are the same answer)."""
+    from .affine import Lin
+    prog = ctx.prog
+    ctx.rule(rule, 'time accessors of RunControl / Replication: start = s, warm-up time = s + w, end = s + L, warm-up period = w, run length = L over the constructor arguments')
+    S_, W_, L_ = 'start_time', 'warmup_period', 'run_length'
+    want = {'start_sim_time': Lin(0, {S_: 1}), 'warmup_sim_time': Lin(0, {S_: 1, W_: 1}), 'end_sim_time': Lin(0, {S_: 1, L_: 1}),
+            'warmup_period': Lin(0, {W_: 1}), 'run_length': Lin(0, {L_: 1})}
+    fe = _FrameEval(prog)
+    n = 0
+    for cname in ('RunControl', 'Replication'):
+        ci = prog.classes.get(cname)
+        if ci is None:
+            raise AnalysisError(f'anchor vanished: class {cname}')
+        init = ci.methods.get('__init__')
+        params = [a.arg for a in init.args.args][1:] if init is not None else []
+        if not {S_, W_, L_} <= set(params):
+            raise AnalysisError(f'anchor vanished: {cname}.__init__ parameters start_time / warmup_period / run_length')
+        obj = _Obj(cname, {p: Lin(0, {p: 1}) for p in (S_, W_, L_)})
+        for acc, w in want.items():
+            r = prog.resolve(cname, acc)
+            if not r or r[1] is None:
+                raise AnalysisError(f'anchor vanished: {cname}.{acc}')
+            got = fe.member(obj, acc, 0)
+            n += 1
+            ok = isinstance(got, Lin) and got == w
+            ctx.ob(rule, f'{cname}.{acc}', ok, sample=f'{cname}.{acc} = {got!r} over the constructor arguments; documented {w!r}')
+            if not ok:
+                shown = repr(got) if isinstance(got, Lin) else 'a value this analysis cannot express over the constructor arguments'
+                ctx.finding(rule, f'{cname}.{acc}', r[0], r[1],
+                            f'{cname}.{acc} evaluates to {shown}; documented: {w!r}. The simulator takes its horizon, warm-up time and start time from these accessors, '
+                            f'so a replication that does not start at zero ends (or warms up) at the wrong time', where=f'{cname}.{acc}')
+    ctx.floor(rule, 'time accessors evaluated', n, 10)
